@@ -15,7 +15,10 @@ const (
 	tSliceV    = 22 // VS: a named type of slice kind; its nil value is a legitimate (token-less) group member
 	tTwinA     = 23 // two distinct interface types (method M0) that print identically
 	tTwinB     = 24
-	nTypes     = 25
+	tMapV      = 25 // VM, VF, VA: values of map, func and array kind
+	tFuncV     = 26
+	tArrV      = 27
+	nTypes     = 28
 )
 
 var typeTab [nTypes]reflect.Type
@@ -35,6 +38,7 @@ func init() {
 	typeTab[tAny] = reflect.TypeOf((*interface{})(nil)).Elem()
 	typeTab[tSliceV] = reflect.TypeOf(VS{})
 	typeTab[tTwinA], typeTab[tTwinB] = TwinA(), TwinB()
+	typeTab[tMapV], typeTab[tFuncV], typeTab[tArrV] = reflect.TypeOf(VM{}), reflect.TypeOf(VF(nil)), reflect.TypeOf(VA{})
 	for i := range typeTab {
 		typeName[i] = typeTab[i].String()
 	}
@@ -56,6 +60,12 @@ func implements(t, iface int) bool { return typeTab[t].Implements(typeTab[iface]
 func mkVal(t int, tok *Tok) reflect.Value {
 	rt := typeTab[t]
 	switch {
+	case t == tMapV:
+		return reflect.ValueOf(VM{"t": tok})
+	case t == tFuncV:
+		return reflect.ValueOf(VF(func() *Tok { return tok }))
+	case t == tArrV:
+		return reflect.ValueOf(VA{tok})
 	case t == tSliceV:
 		v := reflect.MakeSlice(rt, 1, 1)
 		v.Index(0).Set(mkVal(0, tok))
@@ -95,6 +105,17 @@ func tokOf(v reflect.Value) *Tok {
 			return nil
 		}
 		v = v.Elem()
+	}
+	switch v.Type() {
+	case typeTab[tMapV]:
+		return v.Interface().(VM)["t"]
+	case typeTab[tFuncV]:
+		if f := v.Interface().(VF); f != nil {
+			return f()
+		}
+		return nil
+	case typeTab[tArrV]:
+		return v.Interface().(VA)[0]
 	}
 	if v.Kind() == reflect.Slice && v.Type() == typeTab[tSliceV] {
 		if v.Len() == 0 {
